@@ -333,15 +333,19 @@ def child(topo, me, him):
 
 def simulate(topo, n, root, S):
     """S: list (per output, in the runtime's output order) of sets of destination ranks (root excluded).
-    Returns (delivered, senders): delivered = set of (rank, output); senders[rank] = list of ranks that sent it an activation."""
+    Every rank that is activated runs the SAME loop over ALL outputs (the wire mask of the activation names every output the
+    root propagated); the payload of a message q -> dst holds the outputs k with dst in S_k that q itself holds (q is the root,
+    or q consumes k and received it).  Returns (delivered, senders): delivered = set of (rank, output);
+    senders[rank] = list of ranks that sent it an activation."""
     delivered, senders = set(), {}
-    work = [(root, list(range(len(S))))]          # (rank that activates, outputs it knows about)
+    mask = list(range(len(S)))
+    work = [root]
     seen = set()
     while work:
-        me, mask = work.pop(0)
-        if (me, tuple(mask)) in seen:
+        me = work.pop(0)
+        if me in seen:
             continue
-        seen.add((me, tuple(mask)))
+        seen.add(me)
         fw = {root}
         sends = []
         for k in mask:
@@ -360,18 +364,20 @@ def simulate(topo, n, root, S):
                     sends.append(rank)
                 fw.add(rank)
         for dst in sends:
-            carried = [k for k in mask if dst in S[k]]      # the message names every output (known to the sender) that dst consumes
-            for k in carried:
-                delivered.add((dst, k))
+            for k in mask:
+                if dst in S[k] and (me == root or (me in S[k] and (me, k) in delivered)):
+                    delivered.add((dst, k))
             senders.setdefault(dst, []).append(me)
-            work.append((dst, carried))
+            work.append(dst)
     return delivered, senders
 
 
 def predict(topo, n, owner, fam, N, M, L):
     """For every task of the variant whose outputs leave its rank: which (rank, output) deliveries the runtime's propagation
-    loses under the topology, and whether each loss is attributable to the known finding (the rank was reached by a relay
-    q != root that does not consume that output).  Returns (lost, attributable, duplicated)."""
+    loses under the topology, and whether each loss is attributable to the known finding: the rank IS reached by the
+    activation, but every path root -> ... -> rank of senders passes through a relay q != root that does not consume that
+    output (q not in S_k) - the relay where the output was dropped; everything behind it cannot have it either.
+    Returns (lost, attributable, duplicated)."""
     lost, attributable, dup = [], True, False
     for t in instances(fam, N, M, L):
         root = owner[t.tile]
@@ -381,11 +387,24 @@ def predict(topo, n, owner, fam, N, M, L):
         delivered, senders = simulate(topo, n, root, S)
         if any(len(v) > 1 for v in senders.values()):
             dup = True
+
+        def dropped_before(r, k, seen=()):
+            """True iff every sender chain from the root to r contains a relay (not the root) outside S_k"""
+            qs = senders.get(r, [])
+            if not qs or r in seen:
+                return False                       # never activated (or a cycle): not this finding
+            for q in qs:
+                if q == root:
+                    return False                   # the root itself activated r without output k: something else
+                if q in S[k]:
+                    if (q, k) in delivered or not dropped_before(q, k, seen + (r,)):
+                        return False               # q had the output (or lost it for another reason) and did not pass it on
+            return True
         for k, dests in enumerate(S):
             for r in dests:
                 if (r, k) not in delivered:
                     lost.append((t.cls, t.k, r, k))
-                    if not any(q != root and q not in S[k] for q in senders.get(r, [])):
+                    if not dropped_before(r, k):
                         attributable = False
     return lost, attributable, dup
 
